@@ -156,7 +156,7 @@ def rowLines (c : Codec V) (jet : Bool) (specs : List Spec) (rows : List (List V
 
 /-- `_event_footer`: the piece number `k` of `footer.split(' ')` replaced by the event number -/
 def substLabel (k : Nat) (i : Int) (f : String) : String :=
-  let ps := f.splitOn " "
+  let ps := splitCh ' ' f      -- `footer.split(' ')` (character-list primitive of `Core/Str.lean`, see `Lemmas/ClassifyWriter.lean`)
   if ps.length > k then " ".intercalate (ps.set k (toString i)) else f
 
 /-- Python `xs[i]` for an integer index (negative indices count from the end) -/
